@@ -1,7 +1,9 @@
 package core
 
 import (
+	"fmt"
 	"go/types"
+	"os"
 	"sort"
 	"strings"
 
@@ -80,7 +82,24 @@ func (w *World) AnchorTable(mentioned func(key, name string) bool) map[string]An
 // function of the same package and the same signature that is not an anchor itself; several candidates are narrowed
 // to those with the same receiver and then to those called by one of the recorded callers. Exactly one candidate
 // left: the function was renamed and keeps its old key. Returns the renames resolved ("old -> new").
-func (w *World) ResolveRenamedFuncs(table map[string]AnchorInfo) []string {
+// AllFuncKeys lists the keys of all named, non-synthetic functions of the repository.
+func (w *World) AllFuncKeys() []string {
+	var out []string
+	seen := map[string]bool{}
+	for _, f := range w.RepoFns {
+		if f.Parent() != nil || f.Synthetic != "" {
+			continue
+		}
+		if k := FuncKey(f); !seen[k] {
+			seen[k] = true
+			out = append(out, k)
+		}
+	}
+	sort.Strings(out)
+	return out
+}
+
+func (w *World) ResolveRenamedFuncs(table map[string]AnchorInfo, known map[string]bool) []string {
 	funcAlias = map[string]string{}
 	byKey := map[string]*ssa.Function{}
 	for _, f := range w.RepoFns {
@@ -118,6 +137,9 @@ func (w *World) ResolveRenamedFuncs(table map[string]AnchorInfo) []string {
 			if _, isAnchor := table[k]; isAnchor {
 				continue
 			}
+			if known[k] {
+				continue // existed under this name before: not the new name of anything
+			}
 			pk := pkgOfKey(k, f)
 			if !(strings.HasPrefix(old, pk+".") && sigString(f) == info.Sig) {
 				continue
@@ -128,11 +150,32 @@ func (w *World) ResolveRenamedFuncs(table map[string]AnchorInfo) []string {
 			}
 			cands = append(cands, f)
 		}
+		if os.Getenv("DSCHECK_DEBUG_RENAMES") != "" {
+			var ks []string
+			for _, f := range cands {
+				ks = append(ks, rawFuncKeys[f])
+			}
+			fmt.Println("rename candidates(all) for", old, ":", ks)
+		}
+		if len(cands) > 1 {
+			// a method that kept its name and moved to another receiver (a sub-struct the state was moved into, an
+			// embedded struct whose methods are promoted)
+			oldName := old[strings.LastIndex(old, ".")+1:]
+			var named []*ssa.Function
+			for _, f := range cands {
+				if f.Name() == oldName {
+					named = append(named, f)
+				}
+			}
+			if len(named) == 1 {
+				cands = named
+			}
+		}
 		if len(cands) > 1 {
 			// same receiver (or both plain functions)
 			var same []*ssa.Function
 			for _, f := range cands {
-				k := FuncKey(f)
+				k := rawFuncKeys[f]
 				if k[:strings.LastIndex(k, ".")] == old[:strings.LastIndex(old, ".")] {
 					same = append(same, f)
 				}
@@ -182,6 +225,13 @@ func (w *World) ResolveRenamedFuncs(table map[string]AnchorInfo) []string {
 			if len(exact) > 0 {
 				cands = exact
 			}
+		}
+		if os.Getenv("DSCHECK_DEBUG_RENAMES") != "" {
+			var ks []string
+			for _, f := range cands {
+				ks = append(ks, rawFuncKeys[f])
+			}
+			fmt.Println("rename candidates for", old, ":", ks)
 		}
 		if len(cands) == 1 {
 			if _, taken := funcAlias[rawFuncKeys[cands[0]]]; !taken {
